@@ -56,7 +56,7 @@ def gen_cases(ck):
                     t = tags.next()
                     owner[t] = cid
                     seq.insert(rng.randrange(0, len(seq) + 1),
-                               ["a", cid, sg.wire([sg.call("Sub", cid, t, more=True)]).hex()])
+                               ["a", cid, sg.wire([sg.call("Sub", cid, t, more=rng.choice(sg.MORE))]).hex()])
                     sevs = [["si", cid, rng.randrange(0, 99), rng.randrange(0, 3)] for _ in range(rng.randrange(0, 3))]
                     sevs.append(["se", cid])
                     sseqs.append(sevs)
